@@ -428,6 +428,11 @@ class C20(Property):
 
     def gen(self, rng, n, tier):
         cases = []
+        # statements the formatter deletes, in every position (systematic: all 240 small programs in
+        # every run, besides the random placements of the generator)
+        if all(self._on(f) for f in (F15, F21)) and tier != "search":
+            for src in c20gen.deletion_matrix():
+                cases.append({"src": src, "muts": []})
         on = {f: self._on(f) for f in (F10, F15, F16, F17, F18, F19, F20, F21, F24, F25)}
         for i in range(n):
             opts = {"percent": on[F18] and rng.random() < 0.3,
